@@ -2,7 +2,7 @@
 from harness import check, replay
 
 LENSES = {
-    "quick": ["core_pointwise", "core_reduce", "core_index", "core_stackcat"],
+    "quick": ["core_pointwise", "core_reduce", "core_index", "core_stackcat", "core_intops"],
     "thorough": ["core_pointwise"],
 }
 
